@@ -185,6 +185,28 @@ static blob mutate_raw(hctx* h, blob base, char* desc, size_t dn) {
     }
 }
 
+/* boundary-directed cases for every guard of the three open paths (size >= 12, leading magic,
+ * trailing magic, footer_len <= size - 8): one per guard value and its neighbours */
+enum { N_DIRECTED = 10 };
+static blob mutate_directed(blob base, int i, char* desc, size_t dn) {
+    blob r = blob_dup(base.b, base.n);
+    uint32_t L = 0;
+    switch (i) {
+    case 0: r.b[0] ^= 0x01; snprintf(desc, dn, "head-magic-flip@0"); return r;
+    case 1: r.b[3] ^= 0x80; snprintf(desc, dn, "head-magic-flip@3"); return r;
+    case 2: r.b[r.n - 1] ^= 0x01; snprintf(desc, dn, "tail-magic-flip@last"); return r;
+    case 3: r.b[r.n - 4] ^= 0x10; snprintf(desc, dn, "tail-magic-flip@first"); return r;
+    case 4: L = (uint32_t)(r.n - 8); snprintf(desc, dn, "footer_len=size-8"); break;
+    case 5: L = (uint32_t)(r.n - 7); snprintf(desc, dn, "footer_len=size-7"); break;
+    case 6: L = (uint32_t)(r.n - 12); snprintf(desc, dn, "footer_len=size-12"); break;
+    case 7: L = 0; snprintf(desc, dn, "footer_len=0"); break;
+    case 8: { free(r.b); r.n = 12; r.b = h_alloc(12); memcpy(r.b, "PAR1", 4); memset(r.b + 4, 0, 4); memcpy(r.b + 8, "PAR1", 4); snprintf(desc, dn, "twelve-bytes"); return r; }
+    default: { free(r.b); r.n = 11; r.b = h_alloc(11); memcpy(r.b, "PAR1", 4); memset(r.b + 4, 0, 3); memcpy(r.b + 7, "PAR1", 4); snprintf(desc, dn, "eleven-bytes"); return r; }
+    }
+    r.b[r.n - 8] = (uint8_t)L; r.b[r.n - 7] = (uint8_t)(L >> 8); r.b[r.n - 6] = (uint8_t)(L >> 16); r.b[r.n - 5] = (uint8_t)(L >> 24);
+    return r;
+}
+
 /* ---- the API call sequence, run in a child ---- */
 static size_t api_value_size(const carquet_schema_t* sc, int col) {
     /* column -> element through the public accessors: leaves are the elements that are leaves, in order */
@@ -210,6 +232,14 @@ static int is_byte_array(const carquet_schema_t* sc, int col) {
     return 0;
 }
 
+/* The child leaves through _exit after an explicit leak check: exit() would let stdio reposition the
+ * replay input stream it shares with the parent (lines replayed twice or cut short). */
+extern int __lsan_do_recoverable_leak_check(void) __attribute__((weak));
+static void child_exit(int code) {
+    if (__lsan_do_recoverable_leak_check && __lsan_do_recoverable_leak_check()) _exit(23);
+    _exit(code);
+}
+
 static void child_exercise(const char* path, const uint8_t* buf, size_t n, int mode, int out_fd) {
     char sum[256]; uint64_t digest = 1469598103934665603ull; long reads = 0, errs = 0;
     carquet_error_t err; memset(&err, 0, sizeof err); memset(err.message, 'x', sizeof err.message);
@@ -223,7 +253,7 @@ static void child_exercise(const char* path, const uint8_t* buf, size_t n, int m
         snprintf(sum, sizeof sum, "open-error code=%d nul=%d", (int)err.code, nul);
         if (write(out_fd, sum, strlen(sum)) < 0) {}
         free(exact);
-        exit((err.code != 0 && nul) ? 0 : 41);
+        child_exit((err.code != 0 && nul) ? 0 : 41);
     }
     int nrg = carquet_reader_num_row_groups(rd), nc = carquet_reader_num_columns(rd);
     const carquet_schema_t* sc = carquet_reader_schema(rd);
@@ -245,7 +275,7 @@ static void child_exercise(const char* path, const uint8_t* buf, size_t n, int m
             uint8_t* vals = h_alloc((size_t)k * vs); int16_t* d = (int16_t*)h_alloc((size_t)k * 2); int16_t* r = (int16_t*)h_alloc((size_t)k * 2);
             int64_t got = carquet_column_read_batch(cr, vals, k, d, r);
             reads++;
-            if (got > k) { free(vals); free(d); free(r); exit(42); }                         /* more than asked */
+            if (got > k) { free(vals); free(d); free(r); child_exit(42); }                         /* more than asked */
             if (got > 0) {
                 int64_t nn = 0; for (int64_t i = 0; i < got; i++) { digest = (digest ^ (uint64_t)(uint16_t)d[i]) * 1099511628211ull; nn++; }
                 if (!ba) for (size_t i = 0; i < (size_t)got * vs; i++) digest = (digest ^ vals[i]) * 1099511628211ull;   /* may read uninitialised-but-in-bounds bytes */
@@ -281,7 +311,7 @@ static void child_exercise(const char* path, const uint8_t* buf, size_t n, int m
     free(exact);
     snprintf(sum, sizeof sum, "opened nrg=%d nc=%d reads=%ld errs=%ld badidx=%d", nrg, nc, reads, errs, badidx);
     if (write(out_fd, sum, strlen(sum)) < 0) {}
-    exit(badidx ? 43 : 0);
+    child_exit(badidx ? 43 : 0);
 }
 
 static void on_alarm_c04(int s) { (void)s; _exit(77); }
@@ -338,6 +368,11 @@ static void gen_c04(hctx* h) {
     for (long b = 0; b < bases; b++) {
         blob base = make_base(h, codecs[b % 6]);
         for (int mode = 0; mode < 3; mode++) exercise(h, base, mode, "none");
+        for (int d = 0; d < N_DIRECTED; d++) {
+            char desc[160]; desc[0] = 0; blob f = mutate_directed(base, d, desc, sizeof desc);
+            for (int mode = 0; mode < 3; mode++) exercise(h, f, mode, desc);
+            free(f.b);
+        }
         for (long m = 0; m < per; m++) {
             char desc[160]; desc[0] = 0; blob f; int k = (int)h_below(h, 10);
             if (k < 5) { f = mutate_footer(h, base, desc, sizeof desc); kinds[0]++; }
